@@ -662,6 +662,10 @@ func replayCrash(bin, path string) (string, string) {
 	if !strings.Contains(text, "fatal error:") && !strings.Contains(text, "panic:") {
 		return "", ""
 	}
+	if strings.Contains(text, "panic: test timed out") {
+		// the watchdog of the test binary, not a crash of the code under test: infrastructure (exit 2)
+		return "", ""
+	}
 	fn := "unknown"
 	for _, l := range strings.Split(text, "\n") {
 		l = strings.TrimSpace(l)
